@@ -335,7 +335,7 @@ def keygen_rows(ctx: Ctx):
                     else:
                         M, Sd, tries = {"kind": "toy"}, {"kind": "toy"}, 0
                     raised2, sk2 = _call(lambda: S.KeyGen(ikm_a, info_a))
-                    same = (not raised2 and sk2 == sk and bytes(ikm_a) == ikm and bytes(info_a) == info)
+                    same = (not raised2 and sk2 == sk)     # determinism (C16); mutation of the buffers is C20's business
                     rows.append({"op": "kg", "M": M, "S": Sd, "ikm": list(ikm), "info": list(info), "ord": order,
                                  "r": sk if (not raised and isinstance(sk, int)) else "EXC:raised",
                                  "again": 1 if same else 0, "tries": tries})
